@@ -199,7 +199,10 @@ def check_case(rec, case):
     elif kind == 'unary':
         R = case['ref']
         rec.note_case(case, case['cls'], nontriv_lang(R))
+        big = len(R[0]) > 12       # judging a reversed automaton needs a subset construction: exponential, small operands only
         for name in ('dfa_complement', 'dfa_reverse', 'dfa_no_prefix', 'dfa_no_extend', 'dfa_remove_unreachable_states', 'dfa_make_total', 'dfa_make_total_in_place'):
+            if big and name == 'dfa_reverse':
+                continue
             D = adapt.build_dfa(R, scramble=case.get('scr'))
             o = call(getattr(da, name), D)
             if not o.ok:
@@ -210,12 +213,16 @@ def check_case(rec, case):
             D = adapt.build_dfa(R, scramble=case.get('scr'))
             for round_ in (0, 1):
                 for name in ('dfa_complement', 'dfa_reverse', 'dfa_no_prefix', 'dfa_no_extend', 'dfa_remove_unreachable_states', 'dfa_make_total'):
+                    if len(R[0]) > 12 and name == 'dfa_reverse':
+                        continue
                     o = call(getattr(da, name), D)
                     if not o.ok:
                         report_failure(rec, o, name, after_in_place_change=bool(round_))
                 if round_ == 0 and not common.mutate_in_place(D, repr(R)):
                     break
                 rec.counters['requery_after_in_place_change'] += round_
+        if len(R[0]) > 8 or len(R[1]) > 3:
+            return                     # the bounded-word self-checks below enumerate all words up to 4 + |Q| letters: small operands only
         # reference self-check on bounded words: definitions of prefix-free / non-extendable parts
         L = fa.language_upto(R, 4)
         np_ = fa.language_upto(fa.r_no_prefix(R), 4)
@@ -317,6 +324,16 @@ def gen_cases(rec, rng, tier):
         n = rng.randint(3, 8)
         R = fag.maybe_digits(rng, fag.random_dfa(rng, n, k, names=rng.choice([None, fag.random_names(rng, n, exotic=True)]), p_final=rng.choice([0.3, 0.5, 0.7])))
         yield {'kind': 'restrict', 'cls': 'random_dfa_restrictions', 'ref': R}
+    # beyond the small scopes: operands with 9..40 states, alphabets of 4..6 symbols
+    for _ in range(60 if thorough else 6):
+        n = rng.choice([9, 10, 11, 12, 16, 17, 26, 33, 40])
+        k = rng.choice([1, 2, 4, 6])
+        R = fag.random_dfa(rng, n, k, p_final=rng.choice([0.2, 0.5]))
+        yield {'kind': 'unary', 'cls': 'large_dfa', 'ref': R}
+        yield {'kind': 'partial', 'cls': 'large_partial_dfa', 'ref': make_partial(rng, R, 0.2)}
+        n2 = rng.choice([9, 10, 12, 17])
+        R2 = fag.random_dfa(rng, n2, k, names=['r%d' % i for i in range(n2)], p_final=0.4)
+        yield {'kind': 'pair', 'cls': 'large_pair', 'ref1': fag.random_dfa(rng, min(n, 17), k, p_final=0.4), 'ref2': R2}
     # numbered names with the hints of the constructions' fresh-name helpers (q, trap, P): runs spanning digit lengths, gaps
     for _ in range(150 if thorough else 40):
         n = rng.randint(2, 8)
